@@ -756,6 +756,36 @@ Proof.
   rewrite E. unfold rl_MinRemoteIdleTimeout. lia.
 Qed.
 
+(** ** 4a'. Every stream state *)
+
+(** whatever state a receive stream is in (the record's flags are arbitrary: end reached or not, cancellation
+    error recorded or not, cancellation effective or not — i.e. also a RESET_STREAM_AT whose reliable part is still
+    incomplete —, data queued or not): after closeForShutdown a Read returns the cause or the stream's own terminal
+    result; it never parks. The same for a send stream not shut down before. *)
+Lemma read_after_shutdown_every_state : forall r e,
+  r_read (r_closeForShutdown r e) <> RBlock /\
+  (r_read (r_closeForShutdown r e) = RErr e \/ own_result (r_read (r_closeForShutdown r e))).
+Proof.
+  intros r e. destruct (read_after_shutdown r e) as [H|H]; split; auto; rewrite ?H; try discriminate.
+  unfold own_result in H. destruct H as [H|[H|H]]; rewrite H; discriminate.
+Qed.
+
+Lemma write_after_shutdown_every_state : forall s e, s_shutdown s = None ->
+  s_write (s_closeForShutdown s e) <> RBlock /\
+  (s_write (s_closeForShutdown s e) = RErr e \/ own_result (s_write (s_closeForShutdown s e))).
+Proof.
+  intros s e Hs. destruct (write_after_shutdown s e Hs) as [H|H]; split; auto; rewrite ?H; try discriminate.
+  unfold own_result in H. destruct H as [H|[H|H]]; rewrite H; discriminate.
+Qed.
+
+(** why closeForShutdown must not depend on the cancellation error: a stream that saw RESET_STREAM_AT but has not
+    read the reliable part completely (cancelErr set, cancellation not effective, nothing queued) would keep its
+    reader parked for ever *)
+Lemma conditional_shutdown_leaves_parked : forall e,
+  let r := {| r_eof := false; r_cancelErr := true; r_cancel := false; r_shutdown := None; r_data := false |} in
+  r_read (r_closeForShutdown_unless_cancelled r e) = RBlock /\ r_read (r_closeForShutdown r e) = RErr e.
+Proof. intros e. split; reflexivity. Qed.
+
 (** ** 4b. Any number of parked callers per call *)
 
 Lemma woken_from_all : forall ps served,
